@@ -8,7 +8,13 @@ export VERIF_COVER=1 GOCOVERDIR=$D/data VERIF_EVIDENCE_DIR=$D/ev
 for P in ${@:-C01 C02 C03 C04 C05 C06 C07 C08 C09 C10 C11 C12 C13 C14 C15 C16 C17 C18 C19 C20}; do
   /verif/check.sh $P quick > $D/$P.out 2>&1; echo "$P rc=$? $(tail -1 $D/$P.out | cut -c1-120)"
 done
-cd /verif/harness && go tool covdata textfmt -i=$D/data -o $D/cover.txt 2>$D/covdata.err
+# one binary per build variant: counter modes differ (race builds count atomically), so the data
+# directories are split by meta-data hash and the text profiles concatenated
+cd /verif/harness; : > $D/cover.txt
+for M in $D/data/covmeta.*; do
+  H=${M##*covmeta.}; mkdir -p $D/g-$H; ln -sf $M $D/g-$H/; for F in $D/data/covcounters.$H.*; do ln -sf $F $D/g-$H/; done
+  go tool covdata textfmt -i=$D/g-$H -o $D/g-$H.txt 2>>$D/covdata.err && grep -v '^mode:' $D/g-$H.txt >> $D/cover.txt
+done
 python3 - $D/cover.txt > $D/uncovered.txt <<'PY'
 import sys,collections
 cov=collections.defaultdict(int); stm={}
